@@ -244,6 +244,29 @@ impl StateCheck for C18 {
                 out.viol("cli_writes_oc_of", &[], "--oc --of", "a requested file is missing", "two files");
                 return;
             };
+            // saved in place: the components file is also the --oc path (the input is read before anything is written): the file
+            // left behind is the saved file of the ordinary run, and the run itself succeeds
+            {
+                let o5 = cli::run(&cli::sv(&["-c", "@c.csv", "-l", "CANARIAS", "-a", "2.5", "-k", "0.5", "--red1", "0.125", "1.175", "0.255", "--red2", "0.3335", "0.6665", "0.1115", "--oc", "@c.csv", "--of", "@of.csv"]), &[("c.csv", text.as_bytes())], &["c.csv", "of.csv"], Some(4), Duration::from_secs(10));
+                out.regime("cli_saved_in_place");
+                let inplace = o5.files.iter().find(|(k, _)| k == "c.csv").and_then(|(_, b)| b.clone());
+                // (compared as data: the order of the reassigned auxiliary lines follows the hash order of the run)
+                let as_data = |b: &Vec<u8>| String::from_utf8_lossy(b).parse::<Components>().ok().map(|c| (crate::hist::table(&c), c.get_metavec().iter().map(|m| (m.key.clone(), m.value.clone())).collect::<Vec<_>>()));
+                let same_data = match (inplace.as_ref().and_then(as_data), as_data(&oc)) {
+                    (Some((t1, m1)), Some((t2, m2))) => crate::hist::table_diff(&t1, &t2, 0.00501).is_none() && m1 == m2,
+                    _ => false,
+                };
+                if o5.status != Some(0) || !same_data {
+                    out.viol("cli_saved_in_place", &[], "cteepbd -c F ... --oc F --of OF", format!("exit {:?}; F holds {} bytes", o5.status, inplace.map(|b| b.len()).unwrap_or(0)), format!("exit 0 and F = the file saved by the ordinary run ({} bytes)", oc.len()));
+                }
+                // ... and the saved pair evaluated in place again (-c OC -f OF --oc OC --of OF) is a fixed point up to the printed precision
+                let o6 = cli::run(&cli::sv(&["-c", "@oc.csv", "-f", "@of.csv", "--oc", "@oc.csv", "--of", "@of.csv"]), &[("oc.csv", &oc), ("of.csv", &of)], &["oc.csv", "of.csv"], Some(4), Duration::from_secs(10));
+                let oc2 = o6.files.iter().find(|(k, _)| k == "oc.csv").and_then(|(_, b)| b.clone());
+                let parses = oc2.as_ref().map(|b| String::from_utf8_lossy(b).parse::<Components>().is_ok()).unwrap_or(false);
+                if o6.status != Some(0) || !parses {
+                    out.viol("cli_saved_in_place", &[], "cteepbd -c OC -f OF --oc OC --of OF", format!("exit {:?}; OC holds {} bytes, readable: {parses}", o6.status, oc2.map(|b| b.len()).unwrap_or(0)), "exit 0 and a readable components file");
+                }
+            }
             let o2 = cli::run(&cli::sv(&["-c", "@oc.csv", "-f", "@of.csv"]), &[("oc.csv", &oc), ("of.csv", &of)], &[], Some(4), Duration::from_secs(10));
             out.regime("cli_run");
             out.compared += 1;
